@@ -130,10 +130,10 @@ theorem slot_counts_readers {idx : Nat → Nat} {progs : List (List (List Instr)
 
 /-- 200 nested re-entrant reads by one caller: every acquisition is granted, the slot reads 200 at
 the deepest point and 0 when all blocks are left -/
-example : (run id (init (nestProgs 200)) (List.replicate (5 * 200 + 5) 0)).1.arr 0 = 200 ∧
-    (run id (init (nestProgs 200)) (List.replicate (7 * 200 + 5) 0)).1.arr 0 = 0 ∧
-    (run id (init (nestProgs 200)) (List.replicate (7 * 200 + 5) 0)).1.allTerminal = true ∧
-    ((run id (init (nestProgs 200)) (List.replicate (7 * 200 + 5) 0)).2.filter (fun e => e.2 == Ev.spin)).length = 0 := by
+example : (run id (init (nestProgs 200)) (List.replicate (5 * 200 + 6) 0)).1.arr 0 = 200 ∧
+    (run id (init (nestProgs 200)) (List.replicate (7 * 200 + 6) 0)).1.arr 0 = 0 ∧
+    (run id (init (nestProgs 200)) (List.replicate (7 * 200 + 6) 0)).1.allTerminal = true ∧
+    ((run id (init (nestProgs 200)) (List.replicate (7 * 200 + 6) 0)).2.filter (fun e => e.2 == Ev.spin)).length = 0 := by
   decide +kernel
 
 /-- bounded progress: every step that is not a failed lock guard strictly decreases the variant
@@ -143,7 +143,77 @@ theorem progress_bounded {idx : Nat → Nat} {progs : List (List (List Instr))} 
     (h : Reachable idx progs s) (hs : step idx s i = some (ev, s')) :
     (ev ≠ .spin → s'.measure < s.measure) ∧ (ev = .spin → s' = s) := progress_core (inv_reachable h) hs
 
+
+/-! Phase 2: liveness on infinite runs, wait-for graph, the repaired code -/
+
+/-- fairness-level liveness: on every infinite schedule that gives every caller a turn again and
+again, a `Hier` system reaches the all-terminal state after finitely many ticks and stays there
+— no caller waits forever (`runN` = state after n ticks of the infinite schedule `σ`) -/
+theorem fair_termination {idx : Nat → Nat} {progs : List (List (List Instr))} (hH : ∀ p ∈ progs, Hier idx p = true)
+    (σ : Nat → Nat) (hfair : FairSched progs.length σ) :
+    ∃ n, ∀ m, n ≤ m → (runN idx (init progs) σ m).allTerminal = true := fair_termination' hH σ hfair
+
+/-- a deadlock (some caller unfinished, no caller has a step other than a failed lock guard) is a
+cycle in the wait-for graph: callers each waiting for a lock the next one holds -/
+theorem deadlock_has_cycle {idx : Nat → Nat} {progs : List (List (List Instr))} {s : St}
+    (h : Reachable idx progs s) (hd : s.deadlocked idx = true) : ∃ i, WaitPath idx s i i := deadlock_has_cycle' h hd
+
+/-- an outgoing wait-for edge blocks a caller: its only step is a failed lock guard -/
+theorem waiter_blocked {idx : Nat → Nat} {progs : List (List (List Instr))} {s s' : St} {i j : Nat} {ev : Ev}
+    (h : Reachable idx progs s) (hw : waitsFor idx s i j = true) (hs : step idx s i = some (ev, s')) : ev = .spin :=
+  waiter_blocked' h hw hs
+
+/-- deadlock ⇔ somebody is unfinished and every unfinished caller has an outgoing wait-for edge
+(so nestings are deadlock-free exactly as long as the wait-for graph keeps a caller without one) -/
+theorem deadlock_iff_all_wait {idx : Nat → Nat} {progs : List (List (List Instr))} {s : St}
+    (h : Reachable idx progs s) :
+    s.deadlocked idx = true ↔
+      s.allTerminal = false ∧ ∀ (i : Nat) (c : Caller), s.cs[i]? = some c → c.terminal = false →
+        ∃ j, waitsFor idx s i j = true := deadlock_iff_all_wait' h
+
+/-- known finding C19-F1 is exactly a 2-cycle: caller 0 reads key 0 and waits for the write lock of
+key 1, caller 1 reads key 1 and waits for the write lock of key 0 -/
+theorem f1_is_two_cycle :
+    waitsFor cexIdx (run cexIdx (init cexProgs) cexSched).1 0 1 = true ∧
+    waitsFor cexIdx (run cexIdx (init cexProgs) cexSched).1 1 0 = true := f1_is_two_cycle'
+
+/-- the code with `fixes/C19-nested-write-wait-raises.diff` (a write-lock request made inside a
+with-block raises the documented CobaException instead of waiting) cannot deadlock, whatever the
+programs nest — neither `Hier` nor the property's own exclusion `WellNested` is needed -/
+theorem deadlock_free_repaired {idx : Nat → Nat} {progs : List (List (List Instr))} {s : St}
+    (h : ReachableR idx progs s) (hnt : s.allTerminal = false) :
+    ∃ i ev s', step idx s i = some (ev, s') ∧ ev ≠ .spin := deadlock_free_repaired' h hnt
+
+theorem fair_termination_repaired {idx : Nat → Nat} {progs : List (List (List Instr))}
+    (σ : Nat → Nat) (hfair : FairSched progs.length σ) :
+    ∃ n, ∀ m, n ≤ m → (runN idx (initR progs) σ m).allTerminal = true := fair_termination_repaired' σ hfair
+
+/-- the invariant and lock release hold for the repaired code as well -/
+theorem inv_repaired {idx : Nat → Nat} {progs : List (List (List Instr))} {s : St}
+    (h : ReachableR idx progs s) : Inv idx s := (reachableR_inv h).1
+
+theorem locks_released_repaired {idx : Nat → Nat} {progs : List (List (List Instr))} {s : St}
+    (h : ReachableR idx progs s) (ht : s.allTerminal = true) :
+    (∀ i, s.arr i = 0) ∧ ∀ (j : Nat) (c : Caller), s.cs[j]? = some c → ∀ k, c.book k = 0 :=
+  locks_released_repaired' h ht
+
+/-- the F1 programs and schedule on the repaired code: nobody is left waiting and all finish -/
+theorem f1_repaired :
+    (run cexIdx (initR cexProgs) cexSched).1.deadlocked cexIdx = false ∧
+    (run cexIdx (initR cexProgs) (cexSched ++ List.replicate 4 0 ++ List.replicate 12 1)).1.allTerminal = true := f1_repaired'
+
 /-! DiskCacher (file system as a map) -/
+
+/-- DiskCacher under concurrency: while a writer is between creating the entry's file (`ccreate`)
+and closing it (`cpop` / `cpopFail`), the entry does not count as cached, no other caller has it
+open — in an operation or in a with-body —, nobody else writes or removes a key of that slot,
+and no step of another caller opens or receives it: no partial file is ever read -/
+theorem disk_no_partial_read {idx : Nat → Nat} {progs : List (List (List Instr))} {s : St}
+    (h : Reachable idx progs s) {i j : Nat} {c d : Caller} {k : Nat} {g : Getter}
+    (hi : s.cs[i]? = some c) (hpc : c.pc = .gsPopW k g) (hj : s.cs[j]? = some d) (hne : j ≠ i) :
+    s.cache k = none ∧ k ∉ d.reads ∧ d.pc.writeKey ≠ some k ∧
+    ∀ ev s', step idx s j = some (ev, s') → ∀ v, ev ≠ .cget k v ∧ ev ≠ .enter k v :=
+  disk_no_partial_read' h hi hpc hj hne
 
 /-- a getter / write that fails part-way removes the partial file and raises -/
 theorem write_failure_removes (fs : Fs) (key : Nat) (w : Write)
@@ -159,5 +229,19 @@ theorem zero_length_is_absent (fs : Fs) (key : Nat) (w : Write) (h : fs key = so
 theorem disk_served_complete (fs : Fs) (key : Nat) (w : Write) (bytes : List Nat)
     (h : (diskGetSet fs key w).2 = .value bytes) :
     (fs key = some bytes ∧ bytes ≠ []) ∨ w = .complete bytes := disk_served_complete' fs key w bytes h
+
+/- theorem zero_length_is_absent_concurrent_full (fs key w) : concDiskGetSet fs key w = diskGetSet fs key w
+   is FALSE for the code as it is: `concurrent_zero_length_counterexample` (known finding C19-F3). -/
+
+/-- through ConcurrentCacher a DiskCacher behaves as on its own, provided the file is not zero-length -/
+theorem zero_length_is_absent_concurrent_partial (fs : Fs) (key : Nat) (w : Write) (h : fs key ≠ some []) :
+    concDiskGetSet fs key w = diskGetSet fs key w := conc_disk_eq' fs key w h
+
+/-- the hypothesis is necessary: a zero-length file (left by a crash) makes
+`ConcurrentCacher(DiskCacher).get_set` raise instead of re-populating, whatever the getter does
+(the file is gone afterwards, so the next call works) — known finding C19-F3 -/
+theorem concurrent_zero_length_counterexample (fs : Fs) (key : Nat) (w : Write) (h : fs key = some []) :
+    (concDiskGetSet fs key w).2 = .raised ∧ (concDiskGetSet fs key w).1 key = none :=
+  conc_zero_length_counterexample' fs key w h
 
 end Coba.C19
